@@ -7,7 +7,8 @@ from ..runner import sut, expect, Fail
 from .c01 import check_molecule, resolve
 
 ID = 'C08'
-RULE = ('cases: (a) atomistic fragment sets: 1-3 molecules from the molecule generator with 0-3 descriptors per atom '
+RULE = ('[additionally: all-atom fragments holding two molecules separated by a dot (aromatic on both sides), coarse fragments that are chains of 1050-1500 beads written under the recursion head-room of a user, dense coarse graphs with >= 10 open ring bonds, 25 % sulfur-next-to-aromatic molecules] '
+        'cases: (a) atomistic fragment sets: 1-3 molecules from the molecule generator with 0-3 descriptors per atom '
         '(four kinds, labels, orders 0-3, any order in the list), read by read_fragments, written by '
         'write_cgsmiles_fragments and read again; (b) coarse fragment sets from the grammar AST (branches, rings, '
         'bond orders) with descriptors, written with smiles_format=False; (c) complete strings (C01 strings and '
